@@ -200,8 +200,11 @@ fn run_cmd(a: &runner::RunArgs) -> i32 {
         "thorough" => 4_000u64.min(runner::plan_runs(a.prop, "selfcheck")),
         _ => 500u64.min(runner::plan_runs(a.prop, "selfcheck")),
     };
-    let (sc_compared, sc_mismatch, sc_errors) = runner::selfcheck(a, sc_runs);
+    // the main pass first: it has the watchdogs, so a run that never returns is found there; the determinism
+    // self-check (same code, no watchdog of its own beyond a deadline) is skipped when the main pass saw a hang
     let sum = runner::run_parent(a);
+    let hung = sum.violations.iter().any(|(v, _)| v.rule == "hang");
+    let (sc_compared, sc_mismatch, sc_errors) = if hung { (0, 0, vec![]) } else { runner::selfcheck(a, sc_runs) };
     let mut errors = sum.errors.clone();
     errors.extend(sc_errors);
     if sc_mismatch > 0 {
@@ -210,7 +213,8 @@ fn run_cmd(a: &runner::RunArgs) -> i32 {
     // probes that must not be stuck at zero
     let required = required_probes(a.prop);
     for p in &required {
-        if sum.stats.probes.get(*p).copied().unwrap_or(0) == 0 {
+        // (a batch that was cut short by a confirmed hang has not visited everything, and does not claim to)
+        if !hung && sum.stats.probes.get(*p).copied().unwrap_or(0) == 0 {
             errors.push(format!("probe '{}' stayed at zero: the run did not reach what it claims to cover", p));
         }
     }
